@@ -241,6 +241,31 @@ func runC15(c *fw.Case) {
 		m = base("signature-never-stored")
 		m.storeSig = false
 		recs = append(recs, m)
+		// payload links are free-form strings: values that end with the separator of the
+		// signed text, or are empty, must be taken literally
+		m = base("link-ending-with-separator")
+		m.link += ":"
+		m.sig = signer.sign(c15Payload(m.addr, m.refID, m.link))
+		recs = append(recs, m)
+		m = base("signed-over-link-without-its-trailing-separator")
+		m.sig = signer.sign(c15Payload(m.addr, m.refID, m.link))
+		m.link += ":"
+		recs = append(recs, m)
+		m = base("signed-over-link-plus-separator")
+		m.sig = signer.sign(c15Payload(m.addr, m.refID, m.link+"::"))
+		recs = append(recs, m)
+		m = base("empty-link")
+		m.link = ""
+		m.sig = signer.sign(c15Payload(m.addr, m.refID, m.link))
+		recs = append(recs, m)
+		m = base("separator-only-link-signed-as-empty")
+		m.link = ":"
+		m.sig = signer.sign(c15Payload(m.addr, m.refID, ""))
+		recs = append(recs, m)
+		m = base("link-with-inner-separators")
+		m.link = "ipfs://" + m.link[:8] + ":" + m.link[8:16] + ": "
+		m.sig = signer.sign(c15Payload(m.addr, m.refID, m.link))
+		recs = append(recs, m)
 		m = base("signed-by-other-key-with-matching-cert")
 		m.cert = other.pem
 		m.algo = other.algo
@@ -282,7 +307,7 @@ func runC15(c *fw.Case) {
 		checkLinks("after storing record " + r.label)
 		// expected validity from the independent verifier over what is stored
 		want := r.storeLink && r.storeSig && independentVerify(c15Payload(r.addr, r.refID, r.link), r.sig, r.algo, r.cert)
-		if r.label == "valid" || r.label == "signed-by-other-key-with-matching-cert" {
+		if r.label == "valid" || r.label == "signed-by-other-key-with-matching-cert" || r.label == "link-ending-with-separator" || r.label == "empty-link" || r.label == "link-with-inner-separators" {
 			if !want {
 				c.Inconclusive("harness produced an invalid 'valid' record")
 				return
